@@ -647,6 +647,8 @@ func runCase(c *Case) {
 		runBigToken(c, o)
 	case "deep":
 		runDeep(c, o)
+	case "bigfile":
+		runBigFile(c, o)
 	case "reread":
 		runReread(c, o)
 	case "shell":
